@@ -85,9 +85,14 @@ def run_property(mod, prop, tier, seed, t0, only=None):
         bad = r["error"] or r["oos"] or any(o["status"] != "discharged" for o in r["obligations"])
         if bad:
             inlined.add(units[r["unit"]].proves)
+    opts2 = opts
     if inlined:
         os.environ["PYVC_INLINE"] = ",".join(sorted(inlined))
-    results = results + (engine.run_units(mod.__name__, phase2, tier, opts, SPEC_PATHS, src_root) if phase2 else [])
+        # a helper contract does not hold on this tree: the callers are explored with the callee inlined, which can be far more
+        # expensive than the modular run; the run can no longer end 'proved', so each unit gets a smaller budget (what it does not
+        # reach is undecided and falls to the native stand-in)
+        opts2 = dict(opts, unit_budget_s=max(45, opts["unit_budget_s"] // 3))
+    results = results + (engine.run_units(mod.__name__, phase2, tier, opts2, SPEC_PATHS, src_root) if phase2 else [])
     os.environ.pop("PYVC_INLINE", None)
     checker_errors = []
     violations = []
